@@ -13,12 +13,13 @@ import (
 
 // Batch identifies a deterministic list of generated programs.
 type Batch struct {
-	Seed   uint64 `json:"seed"`
-	From   int    `json:"from"`
-	N      int    `json:"n"`
-	Size   int    `json:"size"`
-	Mix    int    `json:"mix"` // -1 = rotate through the mixes
-	NoFail bool   `json:"no_fail,omitempty"`
+	Seed         uint64 `json:"seed"`
+	From         int    `json:"from"`
+	N            int    `json:"n"`
+	Size         int    `json:"size"`
+	Mix          int    `json:"mix"` // -1 = rotate through the mixes
+	NoFail       bool   `json:"no_fail,omitempty"`
+	NoForwardRef bool   `json:"no_forward_ref,omitempty"`
 }
 
 // Program generates program number i of the batch's stream.
@@ -30,6 +31,7 @@ func (b Batch) Program(i int) (*gen.Program, *gen.Gen) {
 	}
 	g := gen.NewGen(r, m)
 	g.NoFail = b.NoFail
+	g.NoForwardRef = b.NoForwardRef
 	size := b.Size
 	if size == 0 {
 		size = 40 + (i%5)*15
